@@ -540,7 +540,25 @@ def write_output_cases(rng, n):
         comps = gen_components(rng)
         def pick(base):
             ks = [k for k in ALL_KEYWORDS if available(base, k)]
-            return [ks[i] if rng.random() < 0.7 else {"keyword": ks[i]} for i in rng.permutation(len(ks))[:int(rng.integers(0, 6))]]
+            lst = [ks[i] if rng.random() < 0.7 else {"keyword": ks[i]} for i in rng.permutation(len(ks))[:int(rng.integers(0, 6))]]
+            # the same quantity requested again under another alias with its own unit and/or file name (value keywords only:
+            # an fname on a tensor keyword is the recorded finding); every entry of the list is a request of its own
+            for _ in range(int(rng.integers(0, 3))):
+                vals = [k for k in ks if DOC_BY_KW[k][4] == "value"]
+                if lst and rng.random() < 0.7:
+                    prev = [e if isinstance(e, str) else e["keyword"] for e in lst]
+                    same = [k for k in vals if any(DOC_BY_KW[k][3] == DOC_BY_KW[p_][3] for p_ in prev)]
+                    vals = same or vals
+                kw = vals[int(rng.integers(len(vals)))]
+                q = DOC_BY_KW[kw][5]
+                e = {"keyword": kw}
+                r2 = rng.random()
+                units_ = list(UNIT_FACTORS[q])
+                if r2 < 0.4: e["unit"] = units_[rng.integers(len(units_))]; e["fname"] = f"again_{base}_{len(lst)}.txt"
+                elif r2 < 0.7: e["fname"] = f"again_{base}_{len(lst)}.txt"
+                else: e["unit"] = units_[rng.integers(len(units_))]
+                lst.insert(int(rng.integers(0, len(lst) + 1)), e)
+            return lst
         r = rng.random()
         out.append({"check": "write_output", "grid": grid, "data_seed": seed, "components": comps,
                     "pcfg": None if r < 0.2 else pick("tp"), "vcfg": None if 0.2 <= r < 0.4 else pick("tv")})
